@@ -70,6 +70,10 @@ def _run(ctx, w):
                         if ("load", ("arg%d" % ni,)) in a:
                             o = [x for x in a if x != ("load", ("arg%d" % ni,))]
                             clamp_ok = bool(o) and o[0] == ("binop", "Sub", ("load", ("arg1", S.buf_cols)), ("load", ("arg2", "0")))
+                if not (clamp_ok and not bad):
+                    from rules import prims as _pr
+                    if _pr.edits_ok(w, S, R):          # decided by evaluation (X10): every position, every count incl. 65535
+                        clamp_ok, bad = True, []
                 ctx.check(clamp_ok and not bad, "X4", prim, "%s does not clamp its count to `cols - col` before using it%s" % (prim, (": " + w.tstr(prim, bad[0][1])) if bad else ""),
                           loc=w.fn_loc(prim), sample={"fn": prim, "clamp": clamp_ok, "unclamped_uses": len(bad)})
                 if need_unwrap:
